@@ -52,7 +52,7 @@ fn make_name(operation_id: Option<&String>, method: &str, path: &str) -> String 
         .map(|s| {
             let mut param = &s[1..s.len() - 1];
             if let Some(name) = names.last() {
-                if param.starts_with(name) {
+                if param.starts_with(name) && param.len() > name.len() {
                     param = &param[name.len() + 1..];
                 }
             }
